@@ -22,8 +22,9 @@ CFG = {
                   "refinement of the replica model's votes to protocol-level vote steps are proved/validated separately; where that "
                   "bridge is not yet kernel-checked it is validated by the differential run against the specification rule. One "
                   "epoch, fixed committee. Cryptography symbolic.",
-    "harness": "c02",
-    "n": {"quick": 2400, "thorough": 60000},
+    "harness": ["c02", "c03"],
+    "scope": {"c03": {"oracle_only": "^equivocation:", "ignore_k": True}},
+    "n": {"quick": [2400, 1000], "thorough": [60000, 30000]},
     "rule": "per committee (n<=11, weights from {1,2,3}) random signer subsets biased to the quorum boundary, partitioned into "
             "1-4 groups with distinct (high vote, high certificate) contents drawn from 5x5 shapes -> op `implied`; plus replica "
             "handler scenarios. non-trivial = distinct op whose outcome class differs from the modal class (all `implied` ops "
